@@ -845,7 +845,8 @@ pub fn child_cli_ber(casefile: &str) -> ! {
         stop_delay_max: 500,
         stop_bound: 300_000,
         par_tasks: 1,
-        keep_events: false,
+        // debugging aid: VERIF_DUMP_EVENTS=N prints the last N events of the run
+        keep_events: std::env::var("VERIF_DUMP_EVENTS").is_ok(),
     };
     let mut argv = vec!["ldpc-toolbox".to_string()];
     argv.extend(args);
@@ -862,6 +863,12 @@ pub fn child_cli_ber(casefile: &str) -> ! {
         RunResult::RootPanicked(m) => ("root-panicked", m.clone()),
     };
     let panicked: Vec<String> = out.tasks.iter().filter_map(|t| if let dstsim::TaskEnd::Panicked(m) = &t.end { Some(format!("task {}: {}", t.id, m)) } else { None }).collect();
+    if let Ok(n) = std::env::var("VERIF_DUMP_EVENTS") {
+        let n: usize = n.parse().unwrap_or(100);
+        for ev in out.events.iter().skip(out.events.len().saturating_sub(n)) {
+            eprintln!("EVENT step {} task {} {:?}", ev.step, ev.task, ev.ev);
+        }
+    }
     if kind == "ok" && workers == 1 {
         // With one worker the frames the collector consumes are a prefix of that worker's
         // stream, whatever the schedule; the worker's random stream is keyed by its task id.
@@ -876,9 +883,16 @@ pub fn child_cli_ber(casefile: &str) -> ! {
         let refs: Vec<_> = (0..3u64).filter_map(|variant| reference_ber_rows(&argv_for_ref, seeds, &strategy, &clock, variant)).collect();
         if refs.len() == 3 {
             let mut rows = refs[0].clone();
+            // one fresh random stream per Eb/N0 point (the present design: every point spawns its
+            // worker anew, and the worker asks for its generator once)? If not — a worker, and
+            // its stream, kept across points — the frames of a later point depend on how many
+            // frames of the earlier ones were still in flight when they ended: only the first
+            // line is then a function of (arguments, entropy).
+            let points = rows.first().map_or(0, |v| v.len());
+            let stream_per_point = out.rng_calls as usize == points;
             for (vi, view) in rows.iter_mut().enumerate() {
                 for (li, line) in view.iter_mut().enumerate() {
-                    if refs.iter().any(|r| r.get(vi).and_then(|v| v.get(li)) != Some(&*line)) {
+                    if refs.iter().any(|r| r.get(vi).and_then(|v| v.get(li)) != Some(&*line)) || (li > 0 && !stream_per_point) {
                         line.clear();
                     }
                 }
